@@ -74,7 +74,45 @@ let render_sess s =
                      (match s.privk.pk_alg with PNoPriv -> "0" | PDes -> "1" | PAes -> "2");
                      hx (s.privk.pk_key @ s.privk.pk_pre_iv); sz s.privk.pk_salt; sz s.msg_id; sz s.request_id]
 
+(* Python layer (Model.Session): user = <name>:<aalg 0|1|2>:<akt 0|1|2>:<akey>:<palg 0|1|2>:<pkt>:<pkey>  ("-" = no user) *)
+let kt_of = function "0" -> KtPassword | "1" -> KtMaster | _ -> KtLocalized
+let kt_str = function KtPassword -> "0" | KtMaster -> "1" | KtLocalized -> "2"
+let parse_user u =
+  match String.split_on_char ':' u with
+  | [name; aalg; akt; akey; palg; pkt; pkey] ->
+    { usr_name = bytes_of_hex name;
+      usr_auth = (if aalg = "0" then None else Some ((z_of_string aalg, kt_of akt), bytes_of_hex akey));
+      usr_priv = (if palg = "0" then None else Some ((z_of_string palg, kt_of pkt), bytes_of_hex pkey)) }
+  | _ -> failwith "bad user"
+let render_user u =
+  let part = function None -> "0:0:-" | Some ((a, t), k) -> sz a ^ ":" ^ kt_str t ^ ":" ^ hx k in
+  hx u.usr_name ^ ":" ^ part u.usr_auth ^ ":" ^ part u.usr_priv
+(* pysess = <sess>;<to_refresh 0|1>;<deferred user or -> *)
+let parse_pysess s =
+  match String.split_on_char ';' s with
+  | [sess; tr; du] -> { ps_sock = parse_sess sess; ps_to_refresh = (tr = "1"); ps_deferred = (if du = "-" then None else Some (parse_user du)) }
+  | _ -> failwith "bad pysession"
+let render_pysess p =
+  render_sess p.ps_sock ^ ";" ^ b01 p.ps_to_refresh ^ ";" ^ (match p.ps_deferred with None -> "-" | Some u -> render_user u)
+let exc_name = function
+  | ESnmpError -> "SnmpError" | EDecode -> "SnmpDecodeError" | EEncode -> "SnmpEncodeError" | EAuth -> "SnmpAuthError"
+  | ENoSuchInstance -> "NoSuchInstance" | EValue -> "ValueError" | ETimeout -> "TimeoutError" | EBlockingIO -> "BlockingIOError"
+  | EOSError -> "OSError" | ENotImplemented -> "NotImplementedError" | ERuntime -> "RuntimeError"
+  | EStopAsyncIteration -> "StopAsyncIteration" | EStopIteration -> "StopIteration" | EException -> "Exception"
+let parse_io rid mid arr =
+  { io_rnd_req = z_of_string rid; io_rnd_msg = z_of_string mid;
+    io_arrivals = (if arr = "-" then [] else List.map bytes_of_hex (String.split_on_char ',' arr)) }
+
 let handle = function
+  | ["pyuser"; u] ->
+    let u = parse_user u in
+    "OK " ^ sz (user_auth_alg u) ^ " " ^ hx (user_auth_key u) ^ " " ^ sz (user_priv_alg u) ^ " " ^ hx (user_priv_key u) ^ " " ^ b01 (require_auth u)
+  | ["pysession"; eid; u; seed] ->
+    res (session_new (bytes_of_hex eid) (parse_user u) (z_of_string seed)) (fun p -> "OK " ^ render_pysess p)
+  | ["pyrefresh"; ps; rid1; mid1; arr1; rid2; mid2; arr2; seed] ->
+    let r = py_refresh (parse_pysess ps) (parse_io rid1 mid1 arr1) (parse_io rid2 mid2 arr2) (z_of_string seed) in
+    (if r.rr_crashed then "PANIC" else match r.rr_raised with None -> "RET" | Some e -> "EXC " ^ exc_name e)
+    ^ " sent=" ^ (match r.rr_sent with [] -> "-" | l -> String.concat "," (List.map hx l)) ^ " " ^ render_pysess r.rr_session
   | ["p2m"; alg; pw] ->
     res (auth_key_of alg) (fun k -> res (alg_p2m k.ak_alg (bytes_of_hex pw)) (fun m -> "OK " ^ hx m))
   | ["localize"; alg; key; eng] ->
